@@ -76,8 +76,8 @@ def cells(tier, seed):
         out.append({"k": "exact", "op": op, "via": "compound"})
     out.append({"k": "witness"})
     for op in ("add", "sub", "mul", "div", "mod"):
-        for ka in ("int", "dec", "null"):
-            for kb in ("int", "dec", "null"):
+        for ka in ("int", "dec", "decint", "null"):
+            for kb in ("int", "dec", "decint", "null"):
                 if (ka, kb) != ("int", "int"):
                     out.append({"k": "kinds", "op": op, "ka": ka, "kb": kb})
     words = sorted(set(a[1] for a in T.alphabet() if a[0] == "identifier")
@@ -560,6 +560,9 @@ def run_kinds(ctx, cell):
             # decimal arithmetic is host float arithmetic (outside the claim): concrete values,
             # only the result kind and NULL propagation are checked
             return vdec((2.5, -1.0, 0.0, 1e300)[ctx.choice(name, 4)])
+        if kind == "decint":
+            # a decimal obtained by converting an int (decimal(3), round(7)): its payload is a host int
+            return run_ckl(("decimal(3)", "round(7)", "decimal(0)", "decimal(-2)")[ctx.choice(name, 4)]).value
         return V.NULL
     va, vb = mk(ka, "a"), mk(kb, "b")
     out = run_ckl("a %s b" % sym, {"a": va, "b": vb})
@@ -574,6 +577,9 @@ def run_kinds(ctx, cell):
     if out.kind == "rt":
         return out            # division by zero
     ctx.check(out.value.isDecimal(), key + ":result-kind-not-decimal", detail)
+    o2 = run_ckl("def x = a; x %s= b; [type(x), type(a %s b + 1), (a %s b) is not int]" % (sym, sym, sym), {"a": va, "b": vb})
+    if o2.kind == "ok":
+        ctx.check(str(o2.value) == "['decimal', 'decimal', TRUE]", key + ":result-kind-not-decimal", lambda: str(o2.value))
     return [out.kind, out.value.type()]
 
 
